@@ -25,3 +25,15 @@ def hstack_widths_differ(case):
 
 
 PREDICATES = {"hstack_widths_differ": hstack_widths_differ}
+
+
+def matmul_rows_ne_cols(case):
+    """2-D x 2-D product (or equally shaped stacks of matrices) whose inner dimensions agree but rows(a) != cols(b)"""
+    shs = _arrays(case)
+    if len(shs) != 2 or len(shs[0]) < 2 or len(shs[1]) < 2:
+        return False
+    a, b = shs
+    return a[-1] == b[-2] and a[-2] != b[-1]
+
+
+PREDICATES["matmul_rows_ne_cols"] = matmul_rows_ne_cols
